@@ -512,3 +512,31 @@ Proof.
   split; [intros [] [] [] []; vm_compute; reflexivity|].
   vm_compute. repeat split; reflexivity.
 Qed.
+
+(* ------------------------------------------------------------------ *)
+(* the want_* options of the entity's own section (proposed_fix/C10-2)  *)
+(* ------------------------------------------------------------------ *)
+Lemma own_options_honoured pre etype eps secs slack now mdp md only vc dup k b w d :
+  parse_request pre true (mk_cfg true etype eps secs slack now mdp md only vc dup) k b w = Ok (Some d) ->
+  fst (lookup_opts etype secs) = true \/ snd (lookup_opts etype secs) = true ->
+  root_signed (d_tree d) = true.
+Proof.
+  intros H Hw.
+  destruct (handed_over_only_if_valid _ _ _ _ _ _ H) as (_ & _ & _ & _ & _ & _ & _ & Hwant).
+  apply Hwant. unfold mk_cfg, read_options. cbn [c_want_signed c_only_valid_cert]. exact Hw.
+Qed.
+
+(* an attribute authority of its own whose aa section wants signed requests, and an unsigned AttributeQuery *)
+Definition w_aa_secs : opt_sections := [(CAa, (true, false))].
+Definition w_aa_cfg (own : bool) : rcfg :=
+  mk_cfg own CAa [(CAa, [(s2l "attribute_service", [EP (s2l "https://idp.example.org/aa/soap") (s2l "urn:oasis:names:tc:SAML:2.0:bindings:SOAP")])])]
+         w_aa_secs 0%Z 1790000000%Z true [(w_sp, [[{| kd_use := Some SIGNING; kd_certs := [5] |}]])] true None true.
+Definition w_query : reqdoc :=
+  Build_reqdoc (El 3 (Some w_id) 4 [El 9 None 1 []; El 11 None 5 []]) (Some V20) None (Some 1790000000%Z) true (Some w_sp) [].
+
+Lemma options_witness :
+  fst (lookup_opts CAa w_aa_secs) = true /\
+  parse_request false true (w_aa_cfg false) KAttrQ BSoap (WSoap (SoapPart w_query)) = Ok (Some w_query) /\
+  root_signed (d_tree w_query) = false /\
+  parse_request false true (w_aa_cfg true) KAttrQ BSoap (WSoap (SoapPart w_query)) = Err (E "IncorrectlySigned").
+Proof. vm_compute. repeat split; reflexivity. Qed.
